@@ -7,7 +7,7 @@
 //! After EVERY operation, for EVERY live class: (1) the stored datum equals the join of make over all e-nodes of the
 //! class computed from the children's CURRENT data; (2) it equals the least fixpoint computed independently by plain
 //! iteration over `enodes` (for MinSize this is also compared with the extractor's best cost).
-//! Bound: 5 hand-written union histories + 100 (deep: 2000) generated histories per analysis: a term of depth <= 3 over var/lam/app/add/mul/sub/g/
+//! Bound: 7 hand-written union histories + 100 (deep: 2000) generated histories per analysis: a term of depth <= 3 over var/lam/app/add/mul/sub/g/
 //! numbers with 3 slot names, all subterms inserted; then either <= 3 rounds of a fixed-seed subset of 12 rules that
 //! hold in Z/2^32 (ring laws, beta with let, rules that make slots redundant) or 6 unions of ring-law instances.
 //! also-with-features: checks
@@ -109,6 +109,8 @@ trait Ref: Analysis<AL> + Default + 'static where Self::Data: std::fmt::Debug {
     fn ref_make(n: &AL, get: &dyn Fn(Id) -> Option<Self::Data>) -> Option<Self::Data>;
     /// strictly better (the iteration keeps the better one)
     fn better(new: &Self::Data, old: &Self::Data) -> bool;
+    /// what the modify hook must have established for class i (None = nothing to check)
+    fn hook_done(_eg: &EGraph<AL, Self>, _i: Id) -> Option<String> { None }
 }
 impl Ref for MinSize {
     const NAME: &'static str = "MinSize";
@@ -124,6 +126,10 @@ impl Ref for ConstFold {
     const NAME: &'static str = "ConstFold";
     fn ref_make(n: &AL, get: &dyn Fn(Id) -> Option<Option<u32>>) -> Option<Option<u32>> { Some(fold_node(n, &|i| get(i).flatten())) }
     fn better(new: &Option<u32>, old: &Option<u32>) -> bool { new.is_some() && old.is_none() }
+    fn hook_done(eg: &EGraph<AL, Self>, i: Id) -> Option<String> {
+        let c = (*eg.analysis_data(i))?;
+        match eg.lookup(&AL::Number(c)) { Some(a) if a.id == i => None, other => Some(format!("class {:?} has the datum Some({}) but the constant {} is in {:?}: the modify hook was not run for it", i, c, c, other.map(|a| a.id))) }
+    }
 }
 
 fn check_analysis<N: Ref>(eg: &EGraph<AL, N>, desc: &str) -> Result<(), String> where N::Data: std::fmt::Debug {
@@ -134,6 +140,7 @@ fn check_analysis<N: Ref>(eg: &EGraph<AL, N>, desc: &str) -> Result<(), String> 
         let Some(j) = acc else { return Err(format!("C14:analysis.join-of-nodes {} ({}): class {:?} has no e-node", desc, N::NAME, i)); };
         if &j != eg.analysis_data(i) { return Err(format!("C14:analysis.join-of-nodes {} ({}): class {:?} stores {:?}, the join of make over its e-nodes {:?} is {:?}", desc, N::NAME, i, eg.analysis_data(i), eg.enodes(i), j)); }
     }
+    for i in eg.ids() { if let Some(m) = N::hook_done(eg, i) { return Err(format!("C14:analysis.modify-run {} ({}): {}", desc, N::NAME, m)); } }
     // (2) the least fixpoint, by plain iteration
     let mut reference: std::collections::HashMap<Id, N::Data> = Default::default();
     loop {
@@ -198,6 +205,9 @@ fn hand_written() -> Vec<(Vec<&'static str>, Vec<(usize, usize)>)> {
         (vec!["(add (mul (var $1) 0) 2)", "(mul (var $1) 0)", "0", "(g (add (mul (var $1) 0) 2))", "(mul (g (add (mul (var $1) 0) 2)) 3)"], vec![(1, 2)]),
         // a class merged away while an analysis-only update of one of its e-nodes is pending (several copies: hash order)
         (vec!["(g (var $1))", "(add (var $1) 0)", "(mul (g (var $1)) (add (var $1) 0))", "(g (mul (g (var $1)) (add (var $1) 0)))", "(sub (g (var $2)) (add (var $2) 0))", "(g (sub (g (var $2)) (add (var $2) 0)))", "(add (g (var $3)) (add (var $3) 0))", "(var $1)"], vec![(1, 7), (0, 7)]),
+        // a modify hook whose own union creates a congruence that changes another class's datum (re-entrant rebuild)
+        (vec!["(add 3 (g 8))", "10", "(mul (add (add (g 7) 2) (g 8)) 2)", "(g 7)", "1", "(mul (mul (add (add (g 7) 2) (g 8)) 2) 5)", "(add (mul (mul (add (add (g 7) 2) (g 8)) 2) 5) 1)"], vec![(0, 1), (3, 4)]),
+        (vec!["(mul 2 (g 1))", "6", "(add (mul (add (g 2) 1) (g 1)) 1)", "(g 2)", "1", "(sub (add (mul (add (g 2) 1) (g 1)) 1) 7)"], vec![(0, 1), (3, 4)]),
         // a cyclic class
         (vec!["(g (add (var $1) 1))", "(add (var $1) 1)", "(mul (g (add (var $1) 1)) 2)"], vec![(0, 1)]),
     ]
